@@ -19,6 +19,8 @@ from .smt import SV, TD
 class Clause:
     label: str
     fn: Callable[["Ctx"], Any]
+    # intermediate assertions: each is first proved as its own obligation, then available to the main goal
+    hints: Callable[["Ctx"], list] | None = None
 
 
 @dataclasses.dataclass
@@ -34,6 +36,8 @@ class Contract:
     may_raise: dict[str, Callable[["Ctx"], Any] | None] = dataclasses.field(default_factory=dict)
     # (label, exception names, condition): under the condition the call MUST raise one of the names
     must_raise: list[tuple[str, tuple[str, ...], Callable[["Ctx"], Any]]] = dataclasses.field(default_factory=list)
+    # postconditions of exceptional exits (checked on every raise outcome; ctx.exc is the class name)
+    exc_ensures: list[Clause] = dataclasses.field(default_factory=list)
     invariants: dict[int, Callable[..., Any]] = dataclasses.field(default_factory=dict)
     result_td: TD | None = None
     fresh_result: bool = False  # the returned object (and the containers it holds) is allocated by the call
@@ -43,14 +47,19 @@ class Contract:
     assumed: bool = False  # trusted: used at call sites, body not verified (listed in evidence)
     note: str = ""
     setup: Callable[["Ctx"], None] | None = None  # run once per verification to add ghost state
+    symbol: Any = None  # pure contracts: the spec function the call denotes (z3 FuncDecl over the SV arguments)
 
     # -- fluent API used by the sidecar files
     def req(self, label: str, fn: Callable[["Ctx"], Any]) -> "Contract":
         self.requires.append(Clause(label, fn))
         return self
 
-    def ens(self, label: str, fn: Callable[["Ctx"], Any]) -> "Contract":
-        self.ensures.append(Clause(label, fn))
+    def ens(self, label: str, fn: Callable[["Ctx"], Any], hints: Callable[["Ctx"], list] | None = None) -> "Contract":
+        self.ensures.append(Clause(label, fn, hints))
+        return self
+
+    def exc_ens(self, label: str, fn: Callable[["Ctx"], Any]) -> "Contract":
+        self.exc_ensures.append(Clause(label, fn))
         return self
 
     def raises(self, exc: str, when: Callable[["Ctx"], Any] | None = None) -> "Contract":
